@@ -13,9 +13,11 @@ VERIF = os.path.dirname(os.path.dirname(os.path.dirname(os.path.abspath(__file__
 REPO = os.environ.get("VERIF_REPO", "/repo")
 SPEC = os.path.join(VERIF, "spec")
 HARNESS_SRC = os.path.join(VERIF, "harness")
-BUILD = os.path.join(VERIF, "build")
-EVIDENCE = os.path.join(VERIF, "evidence")
-REPLAYS = os.path.join(VERIF, "replays")
+ALT = REPO != "/repo"          # VERIF_REPO=<dir>: check another tree (a scratch worktree with a seeded change); outputs go to VERIF_OUT
+_OUT = os.environ.get("VERIF_OUT", os.path.join("/tmp", "verif-alt-" + re.sub(r"[^A-Za-z0-9]+", "_", REPO))) if ALT else VERIF
+BUILD = os.path.join(_OUT, "build")
+EVIDENCE = os.path.join(_OUT, "evidence")
+REPLAYS = os.path.join(_OUT, "replays")
 FINDINGS = os.path.join(VERIF, "known-findings.txt")
 TLA_CP = "/opt/veriftools/tla/tla2tools.jar:/opt/veriftools/tla/CommunityModules-deps.jar"
 
@@ -69,9 +71,16 @@ def build_harness(race=False):
     if race:
         env["CGO_ENABLED"] = "1"
         cmd.insert(2, "-race")
+    if ALT:
+        mod = os.path.join(BUILD, "alt.mod")
+        with open(os.path.join(HARNESS_SRC, "go.mod")) as f, open(mod, "w") as g:
+            g.write(f.read().replace("=> /repo", "=> " + REPO))
+        shutil.copyfile(os.path.join(REPO, "go.sum"), os.path.join(BUILD, "alt.sum"))
+        cmd.insert(2, "-modfile=" + mod)
+    else:
+        # go.sum must cover the repo's dependencies
+        shutil.copyfile(os.path.join(REPO, "go.sum"), os.path.join(HARNESS_SRC, "go.sum"))
     cmd.append(".")
-    # go.sum must cover the repo's dependencies
-    shutil.copyfile(os.path.join(REPO, "go.sum"), os.path.join(HARNESS_SRC, "go.sum"))
     p = subprocess.run(cmd, cwd=HARNESS_SRC, env=env, capture_output=True, text=True)
     if p.returncode != 0:
         raise Infra("harness build failed (the tree under /repo must compile):\n" + p.stdout + p.stderr)
